@@ -53,10 +53,59 @@ func storesToType(f *ssa.Function, T *types.Named, fields map[*types.Var]bool) [
 			if al, ok := fa.X.(*ssa.Alloc); ok && !al.Heap {
 				continue
 			}
+			if ia, ok := fa.X.(*ssa.IndexAddr); ok && freshSlice(f, ia.X, st) {
+				continue // an element of a slice that the function has just copied (copy-on-write): not shared storage
+			}
 			out = append(out, st)
 		}
 	}
 	return out
+}
+
+// freshSlice: the slice value s, used at `use`, is backed by memory allocated by this function and not yet shared: it is
+// the result of make or of append(nil, ...), or it is loaded from a location whose only store in the function stores such a
+// value and dominates the load.
+func freshSlice(f *ssa.Function, s ssa.Value, use ssa.Instruction) bool {
+	isFresh := func(v ssa.Value) bool {
+		switch x := v.(type) {
+		case *ssa.MakeSlice:
+			return true
+		case *ssa.Call:
+			if bi, ok := x.Common().Value.(*ssa.Builtin); ok && bi.Name() == "append" && len(x.Common().Args) > 0 {
+				if c, ok := x.Common().Args[0].(*ssa.Const); ok && c.Value == nil {
+					return true
+				}
+			}
+		}
+		return false
+	}
+	if isFresh(s) {
+		return true
+	}
+	ld, ok := s.(*ssa.UnOp)
+	if !ok || ld.Op != token.MUL {
+		return false
+	}
+	var found *ssa.Store
+	for _, b := range f.Blocks {
+		for _, in := range b.Instrs {
+			st, ok := in.(*ssa.Store)
+			if !ok || !sameAddr(st.Addr, ld.X) {
+				continue
+			}
+			if found != nil {
+				return false
+			}
+			found = st
+		}
+	}
+	if found == nil || !isFresh(found.Val) {
+		return false
+	}
+	if found.Block() == ld.Block() {
+		return instrIndex(found) < instrIndex(ld)
+	}
+	return found.Block().Dominates(ld.Block())
 }
 
 func ruleWho(p *Prog, r *Report, c whoCfg) {
